@@ -597,29 +597,50 @@ ASSUMPTIONS = list(ASSUMPTIONS) + [x for x in _B.ASSUMPTIONS if x not in ASSUMPT
 TRUSTED = list(TRUSTED) + [x for x in _B.TRUSTED if x not in TRUSTED]
 
 
+# Part C (the context index: tools/props/c08c.py) likewise; its cases carry the probe prefix zidx_ctx.
+from props import c08c as _C
+
+THEOREMS = THEOREMS + list(_C.THEOREMS)
+RULE = RULE + " || part C: " + _C.RULE
+ASSUMPTIONS = ASSUMPTIONS + [x for x in _C.ASSUMPTIONS if x not in ASSUMPTIONS]
+TRUSTED = TRUSTED + [x for x in _C.TRUSTED if x not in TRUSTED]
+
+
+def _isc(c):
+    return c.get("line", "").startswith("zidx_ctx ")
+
+
+def _part(c):
+    return _C if _isc(c) else _B if _isb(c) else None
+
+
 def _isb(c):
     return c.get("line", "").startswith("zidx_")
 
 
 def corpus():
-    return _A["corpus"]() + _B.corpus()
+    return _A["corpus"]() + _B.corpus() + _C.corpus()
 
 
 def cases(rng, tier):
-    return _A["cases"](rng.fork("A"), tier) + _B.cases(rng.fork("B"), tier)
+    return _A["cases"](rng.fork("A"), tier) + _B.cases(rng.fork("B"), tier) + _C.cases(rng.fork("C"), tier)
 
 
 def same(c, impl, model):
-    return _B.same(c, impl, model) if _isb(c) else _A["same"](c, impl, model)
+    p = _part(c)
+    return p.same(c, impl, model) if p else _A["same"](c, impl, model)
 
 
 def oracle(c, impl):
-    return _B.oracle(c, impl) if _isb(c) else _A["oracle"](c, impl)
+    p = _part(c)
+    return p.oracle(c, impl) if p else _A["oracle"](c, impl)
 
 
 def classify(c, impl):
-    return _B.classify(c, impl) if _isb(c) else _A["classify"](c, impl)
+    p = _part(c)
+    return p.classify(c, impl) if p else _A["classify"](c, impl)
 
 
 def nontrivial_key(c, impl):
-    return _B.nontrivial_key(c, impl) if _isb(c) else _A["nontrivial_key"](c, impl)
+    p = _part(c)
+    return p.nontrivial_key(c, impl) if p else _A["nontrivial_key"](c, impl)
